@@ -204,7 +204,7 @@ def has(s, *acts):
     return all(any(x['a'] == a for x in s['steps']) for a in acts)
 
 
-def standard(chk, formulas, nontrivial, rule, assumptions, extra_cov=None):
+def standard(chk, formulas, nontrivial, rule, assumptions, extra_cov=None, extra=None):
     thorough = chk.tier == 'thorough'
     ms = model(chk, thorough)
     if chk.replay:
@@ -223,4 +223,6 @@ def standard(chk, formulas, nontrivial, rule, assumptions, extra_cov=None):
         'checker_cmd': 'tlc MC_RemoteClient / Props_RemoteClient / Trace_RemoteClient', 'exhaustive': False,
     }
     cov.update(extra_cov or {})
+    if extra and not chk.replay:
+        cov.update(extra(chk, thorough))
     chk.finish(cov, assumptions=assumptions)
